@@ -66,7 +66,8 @@ type Spec struct {
 }
 
 type Op struct {
-	K     string `json:"op"` // snap finish create control destroy cleanup kill dies
+	K     string `json:"op"` // snap finish create control destroy cleanup kill dies xfail
+	Agent bool   `json:"agent,omitempty"` // xfail: the whole agent of task T fails (else its executor)
 	E     int    `json:"e,omitempty"`
 	Spec  *Spec  `json:"spec,omitempty"`
 	Ev    int    `json:"ev,omitempty"` // 1 CONFIGURE 2 START 3 STOP 4 RESET
@@ -108,9 +109,10 @@ func tidOf(e, i int) int { return e*64 + i }
 
 type TaskObs struct {
 	Id     int  `json:"id"`
-	Owner  int  `json:"owner"` // -1 none
+	Owner  int  `json:"owner"` // environment of the parent role, locked or not; -1 none
 	Active bool `json:"active"`
 	State  int  `json:"state"`
+	Idok   bool `json:"idok"` // agent and executor id still set (false after an executor / agent failure)
 }
 
 type EnvObs struct {
@@ -134,6 +136,7 @@ type Obs struct {
 	Launch []int     `json:"launch"`
 	Note   string    `json:"note,omitempty"`
 	stg    []int
+	xf     []int
 }
 
 type Result struct {
@@ -145,9 +148,14 @@ type Result struct {
 	// running, but whose TASK_RUNNING had not been processed by the core when the creation gave up
 	// (machine under load): for the model these tasks were still staging
 	Stg map[int][]int `json:"stg,omitempty"`
+	// index of an xfail request -> the tasks that shared the failed executor / agent (read off the roster)
+	Xf map[int][]int `json:"xf,omitempty"`
 	Err    string `json:"err,omitempty"`
 	Hung   bool   `json:"hung,omitempty"`
 	HungOp string `json:"hung_op,omitempty"` // kind of the request that did not return
+	// a creation gave up on its deploy timeout before the scheduler had even handed the launched tasks
+	// to the roster (machine under heavy load): the run says nothing about the clean-up, it is repeated
+	Slow bool `json:"slow,omitempty"`
 }
 
 // ---------------------------------------------------------------- Coq printing
@@ -217,6 +225,8 @@ func opTerm(o Op) string {
 		return fmt.Sprintf("(OKill %s)", tl(o.Ids))
 	case "dies":
 		return fmt.Sprintf("(ODies %s)", tidTerm(o.T))
+	case "xfail":
+		return fmt.Sprintf("(OFail %s)", tl(o.Ids))
 	}
 	return "OCleanup"
 }
@@ -232,7 +242,7 @@ func obsTerm(o Obs) string {
 		if t.Owner >= 0 {
 			ow = fmt.Sprintf("(Some %d)", t.Owner)
 		}
-		ts[i] = fmt.Sprintf("(mkTask %s %s %s %d)", tidTerm(t.Id), ow, gen.Bool(t.Active), t.State)
+		ts[i] = fmt.Sprintf("(mkTask %s %s %s %d %s)", tidTerm(t.Id), ow, gen.Bool(t.Active), t.State, gen.Bool(t.Idok))
 	}
 	return fmt.Sprintf("(mkObs %d %s %s %s %s %s %s %s %d %d %s)", o.Rc, gen.List(es), gen.List(ts), nl(o.ADets),
 		tl(o.Kills), tl(o.Cmds), tl(o.Calls), tl(o.Trigs), o.Early, o.Pend, tl(o.Launch))
@@ -245,6 +255,9 @@ func caseTerm(h History, r Result) string {
 			sp := *o.Spec
 			sp.Fail = f
 			o.Spec = &sp
+		}
+		if o.K == "xfail" {
+			o.Ids = r.Xf[i]
 		}
 		if st, ok := r.Stg[i]; ok && o.Spec != nil {
 			sp := *o.Spec
@@ -419,6 +432,7 @@ type child struct {
 	seenEv   int
 	pending  map[int]chan createRes // gated creations in flight
 	active   map[int]bool           // task key -> the core processed its TASK_RUNNING (status ACTIVE seen)
+	entered  map[int]bool           // task key -> seen in the roster
 }
 
 type createRes struct {
@@ -562,6 +576,9 @@ func (c *child) onLaunch(ti mesos.TaskInfo) string {
 		if !simcore.WaitFor(12*time.Second, inRoster) {
 			return // never entered the roster (deployment attempt abandoned)
 		}
+		c.mu.Lock()
+		c.entered[tidOf(e, i)] = true
+		c.mu.Unlock()
 		switch mode {
 		case 0:
 			c.s.SetTaskRunning(tid)
@@ -672,21 +689,23 @@ func (c *child) projection() (envs []EnvObs, roster []TaskObs, adets []int) {
 		if l != nil {
 			key = l.key
 		}
+		// ownership is the parent link (GetEnvironmentId), whether or not the task is still locked
 		owner := -1
-		if t.EnvId != "" && t.Locked {
+		if t.EnvId != "" {
 			if idx, ok := c.envIdx[t.EnvId]; ok {
 				owner = idx
 			} else {
 				owner = 99
 			}
 		}
+		idok := t.AgentId != "" && t.ExecutorId != ""
 		// the state of a live task is read from the (simulated) device: the roster's copy is written by
 		// one goroutine per reply, so an older reply can overwrite a newer one
 		state := stateCode(t.State)
-		if lt, ok := live[t.TaskId]; ok && !lt.Terminal {
+		if lt, ok := live[t.TaskId]; ok && !lt.Terminal && idok {
 			state = stateCode(lt.SmState)
 		}
-		roster = append(roster, TaskObs{Id: key, Owner: owner, Active: t.Status == "ACTIVE", State: state})
+		roster = append(roster, TaskObs{Id: key, Owner: owner, Active: t.Status == "ACTIVE", State: state, Idok: idok})
 	}
 	sort.Slice(roster, func(i, j int) bool { return roster[i].Id < roster[j].Id })
 	ad, _ := c.s.Rpc.GetActiveDetectors(c.ctx, &pb.Empty{})
@@ -904,6 +923,15 @@ func (c *child) runOp(o Op) Obs {
 			ob.Note = "lost-deploy"
 		}
 		ob.stg = c.notYetActive(o.E, o.Spec, res.err, ob.Launch, ob.Cmds)
+		if res.err != nil {
+			c.mu.Lock()
+			for _, k := range ob.Launch {
+				if !c.entered[k] {
+					ob.Note = "late-verdict"
+				}
+			}
+			c.mu.Unlock()
+		}
 		return ob
 	case "snap":
 		// the creation is started now and held at template-processing time
@@ -943,6 +971,15 @@ func (c *child) runOp(o Op) Obs {
 			ob.Note = "lost-deploy"
 		}
 		ob.stg = c.notYetActive(o.E, o.Spec, res.err, ob.Launch, ob.Cmds)
+		if res.err != nil {
+			c.mu.Lock()
+			for _, k := range ob.Launch {
+				if !c.entered[k] {
+					ob.Note = "late-verdict"
+				}
+			}
+			c.mu.Unlock()
+		}
 		return ob
 	case "control":
 		if o.Fail {
@@ -1000,6 +1037,58 @@ func (c *child) runOp(o Op) Obs {
 		c.mu.Unlock()
 		_, err := c.s.Rpc.CleanupTasks(c.ctx, &pb.CleanupTasksRequest{TaskIds: ids})
 		return c.observe(rcOf(err), 0)
+	case "xfail":
+		// the executor (or the agent) of task o.T fails: every roster task sharing it is affected
+		var target string
+		c.mu.Lock()
+		for _, l := range c.byTid {
+			if l.key == o.T {
+				target = l.tid
+			}
+		}
+		c.mu.Unlock()
+		var agentId, execId string
+		ros := c.s.Taskman.VerifRoster()
+		for _, t := range ros {
+			if t.TaskId == target {
+				agentId, execId = t.AgentId, t.ExecutorId
+			}
+		}
+		var affected []string
+		var keys []int
+		ok := agentId != "" && execId != ""
+		for _, t := range ros {
+			if (o.Agent && t.AgentId == agentId) || (!o.Agent && t.ExecutorId == execId) {
+				affected = append(affected, t.TaskId)
+				keys = append(keys, c.keyOfTid(t.TaskId))
+				if t.Critical {
+					ok = false // would drive its environment to ERROR (C03), not modelled here
+				}
+			}
+		}
+		if !ok {
+			return c.observe(0, 0)
+		}
+		if o.Agent {
+			c.s.FailAgent(agentId)
+		} else {
+			c.s.FailExecutor(agentId, execId)
+		}
+		simcore.WaitFor(3*time.Second, func() bool {
+			done := 0
+			for _, t := range c.s.Taskman.VerifRoster() {
+				for _, a := range affected {
+					if t.TaskId == a && !t.Locked && t.Status != "ACTIVE" && t.State == "ERROR" {
+						done++
+					}
+				}
+			}
+			return done == len(affected)
+		})
+		sort.Ints(keys)
+		ob := c.observe(0, 0)
+		ob.xf = keys
+		return ob
 	case "dies":
 		c.mu.Lock()
 		tid := ""
@@ -1063,7 +1152,7 @@ func runChild(workDir string) {
 	}
 	c := &child{s: s, rec: rec, g: g, ctx: context.Background(), hist: h,
 		specs: map[int]*Spec{}, envIds: map[int]string{}, envIdx: map[string]int{}, envPtr: map[int]*environment.Environment{},
-		byTid: map[string]*launched{}, failCmd: map[string]bool{}, cfgErr: map[string]bool{}, pending: map[int]chan createRes{}, active: map[int]bool{}}
+		byTid: map[string]*launched{}, failCmd: map[string]bool{}, cfgErr: map[string]bool{}, pending: map[int]chan createRes{}, active: map[int]bool{}, entered: map[int]bool{}}
 	s.Beh.Launch = c.onLaunch
 	s.Beh.Command = func(taskId, cls, event string) simcore.CmdOutcome {
 		c.mu.Lock()
@@ -1100,11 +1189,20 @@ func runChild(workDir string) {
 		select {
 		case ob := <-opDone:
 			rmu.Lock()
+			if ob.Note == "late-verdict" {
+				res.Slow = true
+			}
 			if ob.Note == "lost-deploy" {
 				if res.Fail == nil {
 					res.Fail = map[int]int{}
 				}
 				res.Fail[i] = 5
+			}
+			if o.K == "xfail" {
+				if res.Xf == nil {
+					res.Xf = map[int][]int{}
+				}
+				res.Xf[i] = ob.xf
 			}
 			if len(ob.stg) > 0 {
 				if res.Stg == nil {
@@ -1227,8 +1325,15 @@ func main() {
 			defer wg.Done()
 			for try := 0; try < 3; try++ {
 				results[i] = runHistory(hists[i], slot, *prop, i)
-				if !results[i].Hung && results[i].Err == "" {
+				if !results[i].Hung && results[i].Err == "" && !(results[i].Slow && try < 2) {
 					break
+				}
+				if results[i].Slow && !results[i].Hung && results[i].Err == "" {
+					rmu.Lock()
+					retries++
+					hangs = append(hangs, fmt.Sprintf("history %d try %d: deploy timeout before the offer verdict (slow machine)", i, try))
+					rmu.Unlock()
+					continue
 				}
 				if results[i].Hung && results[i].HungOp == "destroy" && *prop == "C06" {
 					// a destroy request that does not return is what C06 forbids (monitor code 9): keep
